@@ -5,6 +5,9 @@ import os, json, struct
 from vlib import *
 
 OWN = {
+    "C01": {"parse-verdict", "crash"},
+    "C03": {"parse-state", "parse-verdict", "crash"},
+    "C06": {"dump", "crash"},
     "C12": {"state", "accessor", "retval", "lookup", "capacity", "dump", "copy", "crash"},
     "C13": {"leak", "ledger", "crash", "copy", "ledger-trace", "use-after-free", "corrupt", "leak-schema-buffer", "model"},
     "C18": {"equality", "crash"},
@@ -46,10 +49,12 @@ def step_row(bid, i, st):
     elif op in ("reserve", "memberreserve"): a1 = str(a["n"])
     elif op == "addmember": a1, a2 = hexs(a["key"]), "1" if a["copy"] else "0"
     elif op == "removemember": a1 = hexs(a["key"])
+    elif op == "parse": a1 = hexs(a["b"])
+    elif op == "dump": a3 = hexs(a["b"])
     ret = "1" if a.get("ret", True) else "0"
     return [str(bid), str(i), op, str(a.get("c", 0)), a1, a2, a3, dtok(st["r"]), dtok(st["x"]), ret,
             str(st["nl"]), str(st["rc"]), "1" if st["rm"] else "0", "1" if st["eqdef"] else "0",
-            "1" if st["eq"] else "0", "-"]
+            "1" if st["eq"] else "0", hexs(st["d"]) if "d" in st else "-"]
 
 
 def mc(ctx, max_nodes, max_size=2, timeout=3000):
@@ -98,6 +103,75 @@ CHECK_DEADLOCK FALSE
     recs = ctx.tlc_emit("Gen_Dom", cfg=cfg, simulate=num, depth=depth + 1, workers=workers, timeout=3000, xmx="8g")
     ctx.log(f"Gen_Dom: {len(recs)} behaviours of {depth} steps from TLC simulation ({ctx.tlc_runs[-1]['wall']}s)")
     return recs
+
+
+def mc_sonic(ctx, max_nodes, timeout=1500):
+    """spec/Sonic.tla (Dom + Parse + Dump): all invariants of Dom plus SLedgerOk / ParseOk / RoundTrip, exhaustively for the small pools."""
+    cfg = f"""CONSTANTS
+  KeyPool <- MCKeys
+  Scalars <- MCScalars
+  StrBytes <- MCStr
+  Texts <- MCTexts
+  MaxSize = 2
+  MaxNodes = {max_nodes}
+INIT SInit
+NEXT SNext
+INVARIANT SInv
+CONSTRAINT Constraint
+VIEW SView
+CHECK_DEADLOCK FALSE
+"""
+    # no -coverage here: TLC's coverage instrumentation does not terminate on this module (INSTANCE + RECURSIVE)
+    r = ctx.tlc("MC_Sonic", cfg=cfg, tag=f"MC_Sonic_n{max_nodes}", timeout=timeout, xmx="16g")
+    viol = "is violated" in r["out"] or "Error:" in r["out"] or r["exit"] != 0
+    ctx.log(f"MC_Sonic (life cycle, MaxNodes={max_nodes}): {r['distinct']} distinct states, {r['generated']} generated, exit {r['exit']}, "
+            f"Dom invariants + SLedgerOk/ParseOk/RoundTrip {'VIOLATED' if viol else 'hold'}")
+    return r, viol
+
+
+def gen_lifecycle(ctx, num, depth, workers=8):
+    cfg = f"""CONSTANTS
+  KeyPool <- SimKeys
+  Scalars <- SimScalars
+  StrBytes <- SimStr
+  Texts <- SimTexts
+  MaxSize = 40
+  MaxNodes = 80
+  Depth = {depth}
+INIT GInit
+NEXT GNext
+INVARIANT EmitBeh
+INVARIANT SInv
+CHECK_DEADLOCK FALSE
+"""
+    # one single-worker TLC per seed: the lines are longer than the 8 KiB chunks in which concurrent workers of one
+    # TLC process append to the output file, so several workers in one process would tear them
+    parts = parallel(lambda k: ctx.tlc_emit("Gen_Sonic", cfg=cfg, simulate=num, depth=depth + 1, workers=1, timeout=3000, xmx="3g",
+                                            tag=f"Gen_Sonic_w{k}", seed=ctx.seed * 100 + k), list(range(workers)), workers=workers)
+    recs = [r for part in parts for r in part]
+    nparse = sum(1 for r in recs for s in r["steps"] if s["a"]["op"] == "parse")
+    ndump = sum(1 for r in recs for s in r["steps"] if s["a"]["op"] == "dump")
+    ctx.log(f"Gen_Sonic: {len(recs)} life-cycle behaviours of {depth} steps from TLC simulation ({ctx.tlc_runs[-1]['wall']}s), "
+            f"{nparse} parse steps, {ndump} dump steps")
+    ctx.extra["lifecycle"] = dict(behaviours=len(recs), parse_steps=nparse, dump_steps=ndump)
+    return recs
+
+
+def lifecycle(ctx, prop, builds, num, depth, mcn=3):
+    """Model-check Sonic.tla, generate life-cycle behaviours, replay them; failures of the kinds 'prop' owns are recorded."""
+    r, viol = mc_sonic(ctx, mcn)
+    if viol:
+        ctx.add_fail(dict(property=prop, kind="model", sig="model:Sonic", shape=dict(kind="model"), build="tlc",
+                          detail="an invariant of spec/Sonic.tla is violated in MC_Sonic: " + r["out"][-1500:], case={}, replay=dict(harness="MC_Sonic")))
+    recs = gen_lifecycle(ctx, num, depth)
+    rows = rows_of(recs)
+    fails, ledgers, drift = replay(ctx, rows, builds, name="life")
+    record(ctx, rows, fails, OWN[prop])
+    ctx.traces += len(recs) * len(builds) * 2
+    ctx.log(f"life cycle: replayed {len(recs)} behaviours ({len(rows)} steps) x {len(builds)} builds x 2 allocators; failures so far {len(ctx.fail)}; "
+            f"drift (model prediction vs code, not a verdict): {drift}")
+    ctx.extra.setdefault("lifecycle", {}).update(steps=len(rows), drift=drift)
+    return ledgers
 
 
 def rows_of(recs):
@@ -149,6 +223,8 @@ def replay(ctx, rows, builds, allocs=("pool", "track"), name="dom", want_ledger=
                 a = line.split("\t")
                 drift["cap"] = drift.get("cap", 0) + int(a[2])
                 drift["ledger"] = drift.get("ledger", 0) + int(a[4])
+                if len(a) > 6:
+                    drift["dump"] = drift.get("dump", 0) + int(a[6])
         if led != "-" and os.path.exists(led):
             ledgers.append(led)
     return fails, ledgers, drift
@@ -276,6 +352,7 @@ def run_prop(prop, tier, rule):
     ctx.traces += len(recs) * len(builds) * 2
     ctx.log(f"replayed {len(recs)} behaviours ({len(rows)} steps) x {len(builds)} builds x 2 allocators; "
             f"failures so far {len(ctx.fail)}; drift (model prediction vs code, not a verdict): {drift}")
+    ledgers += lifecycle(ctx, prop, builds, 6 if q else 200, 25 if q else 40, 3 if q else 4)
     if prop == "C13":
         ledgers += document_histories(ctx, builds)
         for path, matched, total in validate_ledgers(ctx, ledgers):
